@@ -361,9 +361,15 @@ func (r *runner) do(op Op) {
 		}
 		r.closed = make(chan struct{})
 		go func() { r.p.Close(); close(r.closed) }()
+		// Close blocks until every handle is released: with handles out it is given time to mark the pool closed and
+		// the history goes on; with none out it is awaited (however long a loaded machine takes to schedule it)
+		wait := 50 * time.Millisecond
+		if len(r.live) == 0 {
+			wait = 20 * time.Second
+		}
 		select {
 		case <-r.closed:
-		case <-time.After(20 * time.Millisecond): // Close blocks until every handle is released
+		case <-time.After(wait):
 		}
 		r.emit(Event{"ev": "Close"})
 	case "Sleep":
